@@ -41,17 +41,20 @@ def obsLines (os : List Obs) : List String :=
 
 def optHex (b : Option Bytes) : String := match b with | some x => Hex.ofBytes x | none => "~"
 
+/-- JSON inside a dump line: tokens joined by ';' so that the line still splits on blanks -/
+def jd (j : Json) : String := ";".intercalate j.encode
+
 def fidOf (s : State) (fk : FetchKey) : String :=
   match findFetch s.peers fk with
-  | some f => f.fid.render
+  | some f => jd f.fid
   | none => "?"
 
 def dumpState (s : State) : List String :=
   s.peers.flatMap (fun p =>
-    [s!"peer {p.conn} name={optHex p.name} user={optHex p.user} local={if p.isLocal then 1 else 0} groups={p.fetchGroups},{p.setGroups},{p.callGroups} elements={",".intercalate (p.elements.map (fun e => Hex.ofBytes e.path))} fetches={"|".intercalate (p.fetches.map (fun f => f.fid.render))} routes={",".intercalate (p.routes.map (fun r => Hex.ofBytes r.rid))}"] ++
+    [s!"peer {p.conn} name={optHex p.name} user={optHex p.user} local={if p.isLocal then 1 else 0} groups={p.fetchGroups},{p.setGroups},{p.callGroups} elements={",".intercalate (p.elements.map (fun e => Hex.ofBytes e.path))} fetches={"|".intercalate (p.fetches.map (fun f => jd f.fid))} routes={",".intercalate (p.routes.map (fun r => Hex.ofBytes r.rid))}"] ++
     p.elements.map (fun e =>
       let slots := (e.fetchers.zipIdx.filterMap (fun (s', i) => s'.map (fun fk => s!"{i}:{fk.peer}:{fidOf s fk}")))
-      s!"elem {Hex.ofBytes e.path} owner={e.owner} value={match e.value with | some v => v.render | none => "~"} fetchOnly={if e.fetchOnly then 1 else 0} timeout={e.timeoutNs} groups={e.fetchGroups},{e.setGroups},{e.callGroups} tablesize={e.fetchers.length} fetchers={"|".intercalate slots}")) ++
+      s!"elem {Hex.ofBytes e.path} owner={e.owner} value={match e.value with | some v => jd v | none => "~"} fetchOnly={if e.fetchOnly then 1 else 0} timeout={e.timeoutNs} groups={e.fetchGroups},{e.setGroups},{e.callGroups} tablesize={e.fetchers.length} fetchers={"|".intercalate slots}")) ++
   [s!"index {",".intercalate (s.index.map (fun (p, o) => Hex.ofBytes p ++ ":" ++ toString o))}",
    s!"uuid {s.uuid} timers {s.nextTimer}"]
 
